@@ -363,19 +363,31 @@ class C16(Prop):
             v.extra["tsan"] = "unavailable: build failed"
             vlib.log(b.stdout[-1500:])
         else:
-            r = subprocess.run([os.path.join(tdir, "x86_64-unknown-linux-gnu", "debug", "uvh"), "c16stress", "--rounds", "4000", "--seed", str(seed)],
-                               env=dict(env, TSAN_OPTIONS="halt_on_error=1 exitcode=66"), stdout=subprocess.PIPE, stderr=subprocess.PIPE, text=True, timeout=3000)
-            v.extra["tsan"] = {"rounds": 4000, "exit": r.returncode, "stdout": r.stdout[-300:]}
-            v.evaluations += 4000
+            try:
+                r = subprocess.run([os.path.join(tdir, "x86_64-unknown-linux-gnu", "debug", "uvh"), "c16stress", "--rounds", "4000", "--seed", str(seed)],
+                                   env=dict(env, TSAN_OPTIONS="halt_on_error=1 exitcode=66"), stdout=subprocess.PIPE, stderr=subprocess.PIPE, text=True, timeout=3000)
+            except subprocess.TimeoutExpired:
+                r = None
+            if r is None:
+                v.extra["tsan"] = "unavailable: did not finish within 3000 s on this machine"
+                r = subprocess.CompletedProcess([], 0, "", "")
+            else:
+                v.extra["tsan"] = {"rounds": 4000, "exit": r.returncode, "stdout": r.stdout[-300:]}
+                v.evaluations += 4000
             if r.returncode == 66 or "ThreadSanitizer" in r.stderr:
                 v.add_divergence("tsan-report", [], 1, [{"cmd": "c16stress", "seed": seed, "case": 0, "sig": "tsan-report", "features": [], "detail": r.stderr[-1500:]}])
             elif r.returncode != 0:
                 v.add_divergence("stress-divergence-under-tsan", [], 1, [{"cmd": "c16stress", "seed": seed, "case": 0, "sig": "stress-divergence-under-tsan", "features": [], "detail": r.stdout[-1500:]}])
         # Miri: data-race / UB interpreter, tiny workload, several scheduler seeds
-        r = subprocess.run(["cargo", "+nightly", "miri", "run", "--offline", "--target-dir", os.path.join(vlib.TARGET, "miri"), "--", "c16stress", "--rounds", "2", "--maxk", "2", "--light-only", "1", "--seed", str(seed)],
-                           cwd=hdir, env=dict(env, RUSTFLAGS="--cfg umya_verif", MIRIFLAGS="-Zmiri-disable-isolation -Zmiri-many-seeds=0..8"), stdout=subprocess.PIPE, stderr=subprocess.PIPE, text=True, timeout=6000)
+        try:
+            r = subprocess.run(["cargo", "+nightly", "miri", "run", "--offline", "--target-dir", os.path.join(vlib.TARGET, "miri"), "--", "c16stress", "--rounds", "2", "--maxk", "2", "--light-only", "1", "--modes", "4", "--seed", str(seed)],
+                               cwd=hdir, env=dict(env, RUSTFLAGS="--cfg umya_verif", MIRIFLAGS="-Zmiri-disable-isolation -Zmiri-many-seeds=0..8"), stdout=subprocess.PIPE, stderr=subprocess.PIPE, text=True, timeout=2400)
+        except subprocess.TimeoutExpired:
+            # a stage that does not finish in its wall-clock budget decides nothing (never a violation)
+            v.extra["miri"] = {"note": "unavailable: did not finish within 2400 s on this machine"}
+            return
         ok = r.returncode == 0
-        v.extra["miri"] = {"seeds": 8, "rounds_per_seed": 2, "exit": r.returncode}
+        v.extra["miri"] = {"seeds": 8, "rounds_per_seed": 2, "exit": r.returncode, "note": "workbooks built in memory only: lazily opened workbooks are left out (package reading is too slow under Miri)"}
         if "Undefined Behavior" in r.stderr or "Data race" in r.stderr or "data race" in r.stderr:
             v.add_divergence("miri-report", [], 1, [{"cmd": "c16stress", "seed": seed, "case": 0, "sig": "miri-report", "features": [], "detail": r.stderr[-1500:]}])
         elif not ok:
